@@ -109,8 +109,9 @@ impl PathSelector {
         if Self::is_absolute(&pattern) {
             pattern
         } else {
+            // The paths are matched as lossy strings as well, so the replacement characters
+            // standing for the bytes that are not valid UTF-8 match each other.
             let base_dir_pat = base_dir.to_string_lossy();
-            let base_dir_pat = base_dir_pat.replace('\u{FFFD}', "?");
             let base_dir_pat = Pattern::literal(Self::append_sep(base_dir_pat).as_str());
             base_dir_pat + pattern
         }
